@@ -1,0 +1,199 @@
+//go:build verif
+
+package jd
+
+import (
+	"bytes"
+	"fmt"
+	"os"
+	"os/exec"
+	"path/filepath"
+	"strings"
+)
+
+// Process-level stand-in for the CLI contract (C14): both binaries, built from the working tree by
+// the verifier, are run as processes and compared with the library called in-process.
+// Binary paths come from VERIF_JD_BIN (v2/jd) and VERIF_JDTOP_BIN (top-level).
+
+type verifRun struct {
+	stdout, stderr string
+	exit           int
+}
+
+func verifExec(bin string, stdin string, args ...string) verifRun {
+	cmd := exec.Command(bin, args...)
+	var out, errb bytes.Buffer
+	cmd.Stdout, cmd.Stderr = &out, &errb
+	if stdin != "" {
+		cmd.Stdin = strings.NewReader(stdin)
+	}
+	err := cmd.Run()
+	code := 0
+	if ee, ok := err.(*exec.ExitError); ok {
+		code = ee.ExitCode()
+	} else if err != nil {
+		code = -1
+	}
+	return verifRun{out.String(), errb.String(), code}
+}
+
+// verifFlagSets: valid flag combinations: CLI flags, the matching library options, the -f format.
+type verifFlags struct {
+	args   []string
+	opts   []Option
+	format string
+	yaml   bool
+}
+
+func verifFlagSets() []verifFlags {
+	return []verifFlags{
+		{nil, []Option{Precision(0)}, "jd", false},
+		{[]string{"-set"}, []Option{SET, Precision(0)}, "jd", false},
+		{[]string{"-mset"}, []Option{MULTISET, Precision(0)}, "jd", false},
+		{[]string{"-setkeys", "a"}, []Option{SetKeys("a"), Precision(0)}, "jd", false},
+		{[]string{"-precision", "0.5"}, []Option{Precision(0.5)}, "jd", false},
+		{[]string{"-f", "patch"}, []Option{Precision(0)}, "patch", false},
+		{[]string{"-f", "merge"}, []Option{MERGE, Precision(0)}, "merge", false},
+		{[]string{"-yaml"}, []Option{Precision(0)}, "jd", true},
+		{[]string{"-color"}, []Option{Precision(0)}, "jd", false},
+	}
+}
+
+// verifCLICheck returns "" when every CLI expectation holds for (a, b, flag set fi), else a description.
+func verifCLICheck(a, b JsonNode, fi int) string {
+	bins := []string{os.Getenv("VERIF_JD_BIN"), os.Getenv("VERIF_JDTOP_BIN")}
+	if bins[0] == "" || bins[1] == "" {
+		return "binaries not built"
+	}
+	fs := verifFlagSets()[fi%len(verifFlagSets())]
+	dir, err := os.MkdirTemp("", "verifcli")
+	if err != nil {
+		return err.Error()
+	}
+	defer os.RemoveAll(dir)
+	text := func(n JsonNode) string {
+		if fs.yaml {
+			return n.Yaml()
+		}
+		return n.Json()
+	}
+	fa, fb := filepath.Join(dir, "a"), filepath.Join(dir, "b")
+	os.WriteFile(fa, []byte(text(a)), 0o644)
+	os.WriteFile(fb, []byte(text(b)), 0o644)
+	// library result
+	d := a.Diff(b, fs.opts...)
+	var want string
+	wantErr := false
+	switch fs.format {
+	case "jd":
+		ro := []Option{}
+		if len(fs.args) > 0 && fs.args[0] == "-color" {
+			ro = append(ro, COLOR)
+		}
+		want = d.Render(ro...)
+	case "patch":
+		s, err := d.RenderPatch()
+		want, wantErr = s, err != nil
+	case "merge":
+		s, err := d.RenderMerge()
+		want, wantErr = s, err != nil
+	}
+	empty := map[string]string{"jd": "", "patch": "[]", "merge": "{}"}[fs.format]
+	wantExit := 1
+	if want == empty {
+		wantExit = 0
+	}
+	if wantErr {
+		wantExit, want = 2, ""
+	}
+	for bi, bin := range bins {
+		args := append(append([]string{}, fs.args...), fa, fb)
+		r := verifExec(bin, "", args...)
+		if r.exit != wantExit || r.stdout != want {
+			return fmt.Sprintf("binary %d %v: exit %d stdout %q, library: exit %d %q", bi, fs.args, r.exit, r.stdout, wantExit, want)
+		}
+		if r.exit == 2 && (strings.Count(r.stderr, "\n") != 1 || strings.Contains(r.stderr, "goroutine")) {
+			return fmt.Sprintf("binary %d: exit 2 without a one-line message: %q", bi, r.stderr)
+		}
+		if r.exit != 2 && r.stderr != "" {
+			return fmt.Sprintf("binary %d: unexpected stderr %q", bi, r.stderr)
+		}
+		// stdin instead of the second file
+		rs := verifExec(bin, text(b), append(append([]string{}, fs.args...), fa)...)
+		if text(b) != "" && (rs.exit != r.exit || rs.stdout != r.stdout) {
+			return fmt.Sprintf("binary %d %v: stdin run differs: exit %d %q vs %d %q", bi, fs.args, rs.exit, rs.stdout, r.exit, r.stdout)
+		}
+		// -o FILE: same bytes in the file, nothing on stdout, same exit status
+		fo := filepath.Join(dir, "o")
+		os.Remove(fo)
+		ro := verifExec(bin, "", append(append([]string{"-o", fo}, fs.args...), fa, fb)...)
+		got, _ := os.ReadFile(fo)
+		if ro.exit != r.exit || ro.stdout != "" || (r.exit != 2 && string(got) != r.stdout) {
+			return fmt.Sprintf("binary %d %v: -o run: exit %d stdout %q file %q, plain run: exit %d %q", bi, fs.args, ro.exit, ro.stdout, got, r.exit, r.stdout)
+		}
+		// -o to an unwritable path is an error
+		if r.exit != 2 {
+			rbad := verifExec(bin, "", append(append([]string{"-o", filepath.Join(dir, "no", "such", "dir", "o")}, fs.args...), fa, fb)...)
+			if rbad.exit != 2 {
+				return fmt.Sprintf("binary %d %v: unwritable -o path gives exit %d", bi, fs.args, rbad.exit)
+			}
+		}
+		// round trip through -p (not for colour output; merge only in its domain)
+		if r.exit == 1 && !(len(fs.args) > 0 && fs.args[0] == "-color") && verifDomain(a, b, fs.opts) && !isVoid(a) && !isVoid(b) &&
+			(fs.format != "patch" || (verifPointerExpressible(a) && verifPointerExpressible(b))) {
+			fd := filepath.Join(dir, "d")
+			os.WriteFile(fd, []byte(r.stdout), 0o644)
+			rp := verifExec(bin, "", append(append([]string{"-p"}, fs.args...), fd, fa)...)
+			if rp.exit != 0 {
+				return fmt.Sprintf("binary %d %v: jd -p fails on jd's own output: exit %d %q", bi, fs.args, rp.exit, rp.stderr)
+			}
+			var back JsonNode
+			var err error
+			if fs.yaml {
+				back, err = ReadYamlString(rp.stdout)
+			} else {
+				back, err = ReadJsonString(rp.stdout)
+			}
+			if err != nil || !back.Equals(b, verifEqualOptions(fs.opts)...) {
+				return fmt.Sprintf("binary %d %v: -p round trip gives %q, want %s", bi, fs.args, rp.stdout, b.Json())
+			}
+		}
+	}
+	return ""
+}
+
+// verifCLIMalformed: malformed input gives exit status 2 and a one-line message, never a stack trace.
+func verifCLIMalformed(garbage string, mode int) string {
+	bins := []string{os.Getenv("VERIF_JD_BIN"), os.Getenv("VERIF_JDTOP_BIN")}
+	if bins[0] == "" || bins[1] == "" {
+		return "binaries not built"
+	}
+	dir, err := os.MkdirTemp("", "verifcli")
+	if err != nil {
+		return err.Error()
+	}
+	defer os.RemoveAll(dir)
+	fg, fok := filepath.Join(dir, "g"), filepath.Join(dir, "ok")
+	os.WriteFile(fg, []byte(garbage), 0o644)
+	os.WriteFile(fok, []byte(`{"a":[1,2,3]}`), 0o644)
+	argsets := [][]string{{fg, fok}, {fok, fg}, {"-p", fg, fok}, {"-p", "-f", "patch", fg, fok}, {"-p", "-f", "merge", fg, fok}, {"-yaml", fg, fok}, {"-t", "jd2patch", fg}, {"-t", "patch2jd", fg}}
+	args := argsets[mode%len(argsets)]
+	for bi, bin := range bins {
+		r := verifExec(bin, "", args...)
+		if strings.Contains(r.stderr, "goroutine") || strings.Contains(r.stderr, "panic") {
+			return fmt.Sprintf("binary %d %v: stack trace on malformed input %q", bi, args[:len(args)-1], garbage)
+		}
+		if r.exit != 0 && r.exit != 1 && r.exit != 2 {
+			return fmt.Sprintf("binary %d: exit status %d", bi, r.exit)
+		}
+		if r.exit == 2 && strings.Count(r.stderr, "\n") != 1 {
+			return fmt.Sprintf("binary %d: exit 2 with %d message lines", bi, strings.Count(r.stderr, "\n"))
+		}
+	}
+	return ""
+}
+
+func verifGarbage() []string {
+	return []string{"{", "[1,", "@ [1]\n  1\n+ 2\n", "@ [-2]\n+ 1\n", "@ [5]\n+ 1\n", "@ [-3,0]\n- 1\n", "@ [\"a\",1]\n  1\n- 2\n  3\n", "^ {\"Merge\":1}\n", "@ []\n", "+ 1\n",
+		"[{\"op\":\"test\",\"path\":\"/a/5\",\"value\":1},{\"op\":\"remove\",\"path\":\"/a/5\",\"value\":1}]", "[{\"op\":\"add\",\"path\":\"/a/-\",\"value\":1}]", "[{\"op\":\"remove\"}]", "{\"a\":null}", "null", "\x00\x01", "a: b: c", "- - -", "@ [{}]\n- 1\n", "@ [[]]\n- 1\n- 1\n", "@ [\"a\",{}]\n+ 7\n", "@ [\"a\",0]\n[\n- 1\n- 2\n- 3\n- 4\n"}
+}
